@@ -20,13 +20,37 @@ def run(ctx):
     if 'B' in ctx.stages:
         for front, V in (('v2', 'v2two'), ('legacy', 'legacy')):
             cfgp = fc.mc_cfg('fib-B-route-' + front, front, 'tree', 'route', V, 1, 0, 3, R='Rep_all', invs=[], props=[])
-            fc.stage_b(ctx, front, cfgp, 'routing 1 Interest ops<=3 all representations', max_paths=ctx.pick(800, 15000))
+            fc.stage_b(ctx, front, cfgp, 'routing 1 Interest ops<=3 all representations', max_paths=ctx.pick(800, 15000),
+                       graph_key='route-' + front)
         cfgp = fc.mc_cfg('fib-B-reply', 'v2', 'small', 'reply', 'v2two', ctx.pick(1, 2), 3, 1, reps=2, invs=[], props=[])
         fc.stage_b(ctx, 'v2', cfgp, 'reply timing', max_paths=ctx.pick(800, 15000))
     if 'C' in ctx.stages:
         for front in ('v2', 'legacy'):
             fc.stage_c(ctx, front, ctx.pick(300, 4000), 40)
     dispatcher_check(ctx)
+    dispatcher_traces(ctx)
+
+
+def dispatcher_traces(ctx):
+    """The Dispatcher is also judged by TLC: the routing schedules of stage B (plain Interests only, no shutdown) and
+    random histories are executed on it through the same events and validated against NdnFib (v2 semantics without
+    validators)."""
+    if 'B' in ctx.stages and 'route-v2' in fc._GRAPHS:
+        g, paths = fc._GRAPHS['route-v2']
+        sel = paths if len(paths) <= ctx.pick(600, 6000) else ctx.rng.sample(paths, ctx.pick(600, 6000))
+        recs = []
+        for init, path in sel:
+            sched = [e for e in fc.events_of_path(path) if e['a'] in ('Attach', 'AttachDup', 'Detach', 'RecvInterest')]
+            # the schedule may detach after a (dropped) Shutdown: keep only the prefix before the first Shutdown
+            cut = next((k for k, (a, _, _) in enumerate(path) if a == 'Shutdown'), None)
+            if cut is not None:
+                sched = [e for e in fc.events_of_path(path[:cut]) if e['a'] in ('Attach', 'AttachDup', 'Detach', 'RecvInterest')]
+            if sched:
+                recs.append({'ev': fibkit.run_schedule('dispatcher', sched)})
+        ctx.traces += len(recs)
+        ctx.evaluations += len(recs)
+        ctx.note('Dispatcher: %d routing schedules executed and judged by NdnFibTrace' % len(recs))
+        judge.judge(ctx, 'NdnFibTrace', lambda dev: fc.trace_cfg('dispatcher'), recs, 'dispatcher', 'fibD-%s' % ctx.prop)
 
 
 def dispatcher_check(ctx):
